@@ -31,8 +31,15 @@ Levels(frame, v) ==
   LET c == frame.cols[v] IN IF c.decl # <<>> THEN c.decl ELSE Sorted(Range(c.v) \ {0})
 
 (* ---------------- meaning of a label ---------------- *)
+\* a piece <<name, level>> is a numeric column (level 0) or a treatment indicator; a sum-coded piece
+\* is <<name, level, "sum", omitted level>>: 1 on its level, -1 on the omitted level, 0 elsewhere
+\* (level 0 is the label "mean" of a full sum coding: the constant 1)
 PieceVal(frame, p, r) ==
-  IF p[2] = 0 THEN Cell(frame, p[1], r)
+  IF Len(p) = 4
+  THEN (IF p[2] = 0 THEN 1
+        ELSE IF Cell(frame, p[1], r) = p[2] THEN 1
+        ELSE IF Cell(frame, p[1], r) = p[4] THEN -1 ELSE 0)
+  ELSE IF p[2] = 0 THEN Cell(frame, p[1], r)
   ELSE IF Cell(frame, p[1], r) = p[2] THEN 1 ELSE 0
 RECURSIVE LabelVal(_, _, _)
 LabelVal(frame, lab, r) ==
